@@ -588,7 +588,8 @@ func execVest(x *Exec, toks []string) string {
 		before := k.Denom(x.ctx)
 		hadPools := len(k.GetAllAccountVestingPools(x.ctx)) > 0
 		res, _ := x.deliver(msg.ValidateBasic, func(ctx sdk.Context) error {
-			_, err := ms.UpdateDenomParam(sdk.WrapSDKContext(ctx), msg)
+			r_, err := ms.UpdateDenomParam(sdk.WrapSDKContext(ctx), msg)
+			noteResp(r_, err)
 			return err
 		})
 		after := k.Denom(x.ctx)
